@@ -352,10 +352,14 @@ def run(ctx, rep):
                 skip = st
     if store and skip is not None and cfg.must_pass_edges(cfg.node(store[0]), cfg.branch_edges(cfg.node(skip), False)):
         rep.ok("C14.5", cons, "names present in inject_pulses are skipped before the assignment", ug.loc())
+    elif any(isinstance(n, ast.Name) and n.id == "inject_pulses" for n in walk_no_nested(ug.node) if not isinstance(n, ast.arg)) and skip is None and sum(1 for n in walk_no_nested(ug.node) if isinstance(n, ast.Name) and n.id == "inject_pulses") >= 2:
+        rep.undecided("C14.5", cons, "inject_pulses is consulted but not through the recognised skip-before-assign idiom", ug.loc())
     else:
         rep.violation("C14.5", cons, "an imported gate can overwrite an injected gate of the same name", ug.loc())
     cons = construct_of(ug, "later-import-wins")
-    if store and not any(isinstance(st, ast.If) and any(s is store[0] for s in iter_stmts(st.body)) and any(isinstance(o, ast.NotIn) for n in ast.walk(st.test) if isinstance(n, ast.Compare) for o in n.ops) for st in iter_stmts(ug.body)):
+    if not store:
+        rep.undecided("C14.5", cons, "gates are not stored by a subscript assignment", ug.loc())
+    elif store and not any(isinstance(st, ast.If) and any(s is store[0] for s in iter_stmts(st.body)) and any(isinstance(o, ast.NotIn) for n in ast.walk(st.test) if isinstance(n, ast.Compare) for o in n.ops) for st in iter_stmts(ug.body)):
         rep.ok("C14.5", cons, "assignment overwrites earlier imports unconditionally", ug.loc())
     else:
         rep.violation("C14.5", cons, "an earlier import is kept when a later usepulses provides the same gate", ug.loc())
